@@ -243,6 +243,21 @@ pub fn run_c06(ctx: &Ctx, rep: &mut Report) {
             playout(&st, &cfg, rng, &mut mon, rep);
         }
     });
+    // the longest FENs there are (checkerboard placements, four rights, an e.p. square), rendered, re-parsed
+    // and played on for a few plies; also under ASan and Miri (stack buffers of the renderer)
+    let n = ctx.budget(300, 3000, 1, 100);
+    ctx.cases(rep, "long-fen", n, |_g, rng, rep| {
+        if let Some(p) = synth::long_fen_position(rng) {
+            rep.max("max_fen_len", p.fen().len() as u64);
+            if p.fen().len() >= 80 {
+                rep.count("ev_fen_of_80_or_more_characters");
+            }
+            let st = Start::plain(p, "synth_long_fen");
+            let cfg = WalkCfg { max_plies: if ctx.variant == Variant::Miri { 1 } else { 6 }, null_per_mille: 0, stop_on_divergence: true, follow_library: false };
+            let mut mon = C06 {};
+            playout(&st, &cfg, rng, &mut mon, rep);
+        }
+    });
     walk_mix(ctx, rep, &mut mon, 7000, 60_000, 2, 300, (20, 120), d);
 }
 
